@@ -7,61 +7,61 @@ TRUST = "Trusts rustc (type checking, trait resolution, MIR construction), the d
 CHECKS = {
  "C01": dict(technique="static analysis: MIR abstract interpretation to symbolic summaries (origin terms + region algebra), summary composition seal∘parse∘unseal, Err-exit classification",
    text="Static necessary conditions of the round trip on the resolved program for all 6 backends x 2 purposes: seal and unseal summaries are composed and must cancel (same primitives, key origins, transcripts, widths; decoder receives exactly the encoder's bytes; footer returned = footer parsed), the library nonce has the consumed width, the RSA signature width is anchored by the modulus test, and every Err exit of the seal path (incl. the aws-lc FFI serialisers) is environmental. Not a proof that primitives invert.",
-   ref="DESIGN.md §4 C01"),
+   ref="DESIGN.md §3 C01"),
  "C02": dict(technique="static analysis: symbolic summaries of the 12 unseal impls; partition / coverage / full-width-compare / verify-before-release path rules",
    text="Decides, for every backend unseal, that the payload is exactly partitioned into authenticated regions + tag, that header constants, every region, footer and (v3/v4) assertion are separate PAE pieces, that the comparison is full width, that verification success precedes decryption and Ok, that v1/v2 refuse an assertion first, that the verification key derives from the key argument, and that paseto-core passes stored bytes unmodified. Unforgeability of the primitives is assumed.",
-   ref="DESIGN.md §4 C02"),
+   ref="DESIGN.md §3 C02"),
  "C12": dict(technique="static analysis: path-order rules over enumerated MIR paths (must-pass-through), error-value census, public-API census",
    text="Ordering and census properties that make the statement hold on every input: decoder only after authentication success, validator only after decode success, backends return only unit error variants, PayloadError constructed only at reviewed sites, footer reachable only via unverified_footer.",
-   ref="DESIGN.md §4 C12"),
+   ref="DESIGN.md §3 C12"),
  "C03": dict(technique="static analysis: symbolic summaries compared with hand-transcribed specification terms (T-SPEC) and between sibling backends (T-SIB); unseal Err-exit whitelist",
    text="For all 12 seal functions the normalised construction (nonce derivation, KDF separators and split points, cipher identity incl. CTR counter width, MAC, PAE piece order, signature scheme and signed message, output layout) equals the specification term of its version; v3≡v3-aws-lc and v4≡v4-sodium produce identical terms; no unseal rejects on a condition the spec does not state; paseto-core passes received bytes unmodified. Library primitives are assumed to compute the standard functions.",
-   ref="DESIGN.md §4 C03"),
+   ref="DESIGN.md §3 C03"),
  "C07": dict(technique="static analysis: symbolic blob terms (via paseto-core generics, DH/RSA-KEM algebra) compared with specification terms and between siblings; T-FIXW over FFI big-integer encoders; unwrap Err-exit whitelist",
    text="For 6 backends x {PIE, PBKW, PKE}: the blob term equals the PASERK specification term (domain bytes, KDF identities/split points, cipher incl. 128-bit CTR counter, MAC transcript order, parameter field layout), siblings (v3/aws-lc, v4/sodium, v1/v3, v2/v4) agree up to listed guarded deltas, every BN_bn2bin writes right-aligned into a fixed-width buffer, unwrap functions reject only on conditions the format states.",
-   ref="DESIGN.md §4 C07"),
+   ref="DESIGN.md §3 C07"),
  "C15": dict(technique="static analysis: CFG/dominator/natural-loop and def-use (origin) rules over the MIR of pre_auth_encode; single-forwarding-call rule over every WriteBytes impl",
    text="pre_auth_encode has exactly the three writes of the spec (count, per-piece length = sum of fragment lengths, fragments) as unmodified u64::to_le_bytes / forwarded slices, in two plain forward loops with no other branch; every WriteBytes adapter (14, incl. the io::Write shim) forwards each slice once, unmodified. Piece order at call sites is decided under C03/C07. Injectivity follows mathematically.",
-   ref="DESIGN.md §4 C15"),
+   ref="DESIGN.md §3 C15"),
  "C16": dict(technique="static analysis: per-draw error-discipline rule over enumerated MIR paths (the draw's own Result must be branched on), definedness of nonce/salt/key fields in symbolic producer outputs, statics census, loop membership of retry draws",
    text="All 39 direct draw sites: each fallible draw's own Result is tested with an Err exit before the path continues; nonce/salt/ephemeral/key positions of every producer output are full-width RNG terms with no zero-initialised or caller-controlled bytes; no static/thread_local exists in the lib crates (no caching of draws); retrying key generators redraw inside the loop. Statistical uniqueness and RNG use inside dependencies are out of reach.",
-   ref="DESIGN.md §4 C16"),
+   ref="DESIGN.md §3 C16"),
  "C17": dict(technique="static analysis: rustc Freeze facts for every key type, public-API census for &mut keys, unsafe Send/Sync impl census, pointer-provenance rule for FFI arguments vs binding mutability, const->mut cast scan, statics census",
    text="Type-level argument: all key types are Freeze, no public API takes a key by &mut, the only unsafe Send/Sync impls are the two aws-lc key wrappers whose &self methods pass self-derived pointers only to *const FFI parameters with no const->mut cast, and no static mut / interior-mutable static / thread_local exists — so neither interleavings nor failed operations can change a key. Thread-safety of the C libraries for const access is their contract.",
-   ref="DESIGN.md §4 C17"),
+   ref="DESIGN.md §3 C17"),
  "C18": dict(technique="static analysis: impl census from the compiler's coherence data plus a compile-fail probe catalogue with compiling twins, type-checked by rustc against this build's rmeta",
    text="rustc is the checker: (a) census of every formatting/serde impl on keys, unsealed tokens and secret-bearing backend structs, of the marker-trait impls and of public accessors returning key bytes; (b) 37 misuse programs x 6 backends must each be rejected with the expected error while their twins (identical but for the offending line) and 4 correct programs per backend compile. The catalogue is finite and enumerated completely on every run; programs outside it are covered only by the census.",
-   ref="DESIGN.md §4 C18", note="Trusts rustc's type and coherence checking. Obligations = census rows + probe/twin pairs; all must be discharged."),
+   ref="DESIGN.md §3 C18", note="Trusts rustc's type and coherence checking. Obligations = census rows + probe/twin pairs; all must be discharged."),
  "C19": dict(technique="static analysis: cargo/rustc type-check of feature closures, syn-based pre-expansion cfg scan (subtractive gates only), per-function normalised-MIR digest equality between reduced and full configurations",
    text="Every feature set checked type-checks (quick: none/default/each single flag per crate + core/json variants; thorough: all 45 distinct closures per crate); every #[cfg] is a positive item-level feature predicate (no cfg on statements/expressions/fields, no not(), cfg!, cfg_attr), so features only add items; functions present in a reduced build compile to the same normalised MIR as in the full build. Additivity of dependency features is cargo's contract.",
-   ref="DESIGN.md §4 C19"),
+   ref="DESIGN.md §3 C19"),
  "C08": dict(technique="static analysis: exact-length closure and validator must-pass rules over enumerated decode paths, symbolic encode∘decode composition with a table of inverse library pairs, component-wise Clone check, public-key derivation terms",
    text="For every HasKey impl (6 backends x 5 kinds): decode is closed by the kind's exact width, encode(decode(b)) = b symbolically (no canonicalising/truncating decoder), each success path passes the key type's validating constructor, Ed25519 secret decoders re-derive and compare the public half, manual Clone impls are component-wise, public_key() is the scheme's public key of that secret and equals the embedded half. One known finding (D7: libsodium public keys are length-checked only) is listed in known_findings.json.",
-   ref="DESIGN.md §4 C08"),
+   ref="DESIGN.md §3 C08"),
  "C04": dict(technique="static analysis: census of every panic-capable MIR construct (Assert terminators, unwrap/expect, indexing, split_at, copy_from_slice, explicit panics, dependency APIs documented to panic) discharged by a flow-sensitive interval and slice-length abstract interpretation with context-sensitive workspace callees; FFI status/ownership/buffer-length dataflow rules; unsafe-operation census",
    text="Every one of the ~290 panic-capable sites in the 8 library crates is proved unreachable or its precondition proved from intervals and exact length algebra (overflow asserts included, so release builds cannot wrap either), or is covered by a dependency contract quoted from the dependency source, or by a reviewed row (7 classes, count-capped). aws-lc FFI: every key/signature object is constructed only after all setters returned 1, ownership is detached only after ECDSA_SIG_set0 succeeded, set_len is paired with reserve and successful writes of exactly the added bytes, every (pointer, length) pair passed to aws-lc stays inside its buffer, public keys reach the FFI decoder only as exactly 49 bytes (D5), unsafe operations are confined to lc and base64. Does not decide panics or memory errors inside dependencies (e.g. the rsa crate's key parser), allocation failure, stack depth or KDF cost exhaustion.",
-   ref="DESIGN.md §4 C04"),
+   ref="DESIGN.md §3 C04"),
  "C14": dict(technique="static analysis: writer/reader member-table extraction (def-use origins + dominators over Serialize, byte-trie reconstruction from all MIR paths of visit_bytes, per-arm local/field mapping in visit_map) and single-call transparency rule for the Json<T> wrappers",
    text="Decides the structural clause only: the Serialize impl and the hand-written Deserialize visitor of RegisteredClaims implement the same bijection between the 7 member names and the 7 fields, absent fields emit nothing, duplicate checks test the assigned local and name the same member, member names are read through deserialize_identifier (escaped names reach visit_str), values are requested at the field's own type, unknown members are consumed as IgnoredAny; Json<T>/RegisteredClaims payload and footer encode/decode are one serde_json call on the whole wrapped value/input with the result passed through, empty footer rejected. RFC 3339/nanosecond fidelity and escaping are jiff's/serde_json's contracts and are not decided.",
-   ref="DESIGN.md §4 C14"),
+   ref="DESIGN.md §3 C14"),
  "C13": dict(technique="static analysis: symbolic hash_key terms vs specification and siblings, plumbing terms of KeyId::from / Key::id, std-op census of comparison impls, shared text-form and re-encoding rules",
    text="hash_key of all 6 backends equals the specified digest construction (and siblings agree), ids are computed over the key's own canonical text via expose_key(), the re-encoding equals the supplied encoding, id text is a strict 33-byte mirror form, Eq/Ord/Hash/Clone use only the id bytes, lid/pid/sid headers are distinct.",
-   ref="DESIGN.md §4 C13"),
+   ref="DESIGN.md §3 C13"),
  "C09": dict(technique="static analysis: Display/FromStr summary mirroring, whole-remainder dataflow rule, dominator rule over the base64 decoder CFG, symbolic extraction of alphabet/bit-layout constants compared with RFC 4648 §5 by arithmetic, serde impl census",
    text="The six text forms are mirror images (same constants in the same order, same stored field, whole remainder decoded, '.'+footer iff non-empty); base64 decode accumulates every verdict unconditionally before the single err==0 test, validates the last block on the Ok path, sizes output by decoded_len; the alphabet and 6-bit packing constants extracted from the code equal RFC 4648 §5; serde uses exactly the text form; key ids must be 33 bytes. Construction-level: a different coding style fails closed.",
-   ref="DESIGN.md §4 C09"),
+   ref="DESIGN.md §3 C09"),
  "C10": dict(technique="static analysis: exhaustive census of evaluated associated consts and impls, prefix-freeness computation, exact-length closure analysis of every HasKey::decode path, shared header-coverage rules",
    text="Finite and exhaustive: version/paserk header consts per backend, prefix-freeness of all 52 parse prefixes across versions and kinds, every key decoder closed by an exact-length test of the kind's width (and RSA modulus size for v1), kind/version header inside every authenticated transcript, every FromStr strips its own trait constants.",
-   ref="DESIGN.md §4 C10"),
+   ref="DESIGN.md §3 C10"),
  "C11": dict(technique="static analysis: decision-table extraction from enumerated MIR paths, exhaustive comparison with specification predicates over semantic atoms; structural path-shape rules for combinators",
    text="Each built-in leaf validator's branch structure is mapped to semantic atoms (claim presence, 3-valued timestamp order incl. the leeway-shifted bounds, string equality) and compared with the specified predicate for every assignment of the atoms (finite, exhaustive); combinators (and_then, slices/Vec, Box/Rc/Arc, map, NoValidation) are checked on their path shapes; the unseal gate releases exactly the validated message on the validator's success edge. jiff's arithmetic/ordering is trusted.",
-   ref="DESIGN.md §4 C11"),
+   ref="DESIGN.md §3 C11"),
  "C05": dict(technique="static analysis: summary composition wrap∘unwrap through paseto-core generics (PIE, PBKW, PKE incl. DH / RSA-KEM term algebra), fixed-width layout, Err-exit and parameter-rejection classification",
    text="For 6 backends x {PIE, PBKW, PKE}: the wrap/seal summary and the unwrap/unseal summary are composed symbolically and must cancel (tag check compares identical constructions, decoder receives exactly the encoded key / the sealed key comes back), the blob is fixed-width fields plus the key field with the overhead the format prescribes, no variable-length integer encoding reaches an output field unpadded, wrap paths fail only for environmental reasons or reviewed parameter rejections.",
-   ref="DESIGN.md §4 C05"),
+   ref="DESIGN.md §3 C05"),
  "C06": dict(technique="static analysis: symbolic summaries of the 18 unwrap/unseal-key impls; partition / coverage-as-received / full-width-compare / verify-before-release path rules",
    text="For every undo function: blob exactly partitioned into authenticated regions + tag, transcript starts with the PASERK version literal and kind header and contains every region as received (unmodified), full-width tag comparison, verification before decryption/Ok on all paths, MAC key bound to wrapping key / password / recipient key, paseto-core passes the kind's header constant. MAC/DH security assumed.",
-   ref="DESIGN.md §4 C06"),
+   ref="DESIGN.md §3 C06"),
 }
 NA = {}
 m = {"version": 1,
@@ -70,7 +70,11 @@ m = {"version": 1,
            "baseline_off_cmd": "cd /repo && cargo test --workspace --no-fail-fast --offline", "source_commits": [], "add_only": True},
  "engines": [
   {"name": "facts-driver", "path": "driver/", "serves_properties": sorted(CHECKS), "kind_free_text": "rustc_private compiler driver (RUSTC_WORKSPACE_WRAPPER under cargo +nightly check) dumping resolved MIR, evaluated constants, impl census, ADT layouts as JSON facts; no repository code is executed"},
-  {"name": "term-interpreter", "path": "sa/", "serves_properties": sorted(CHECKS), "kind_free_text": "Python abstract interpreter over MIR facts (origin terms, region algebra, event transcripts, acyclic path enumeration), normaliser to abstract crypto terms, rule modules under sa/rules"}],
+  {"name": "term-interpreter", "path": "sa/", "serves_properties": sorted(CHECKS), "kind_free_text": "Python abstract interpreter over MIR facts (origin terms, region algebra, event transcripts, acyclic path enumeration), normaliser to abstract crypto terms, rule modules under sa/rules"},
+  {"name": "interval-absint", "path": "sa/absint.py", "serves_properties": ["C04"], "kind_free_text": "flow-sensitive interval / slice-length abstract interpretation of MIR with context-sensitive workspace callees, dependency contracts and FFI dataflow hooks (sa/absint.py, absint_calls.py, absint_contracts.py)"},
+  {"name": "probe-compiler", "path": "probes/", "serves_properties": ["C18"], "kind_free_text": "catalogue of misuse programs with compiling twins, type-checked by rustc --emit=metadata against the rmeta files of the current build"},
+  {"name": "cfgscan", "path": "cfgscan/", "serves_properties": ["C19"], "kind_free_text": "syn-based scan of #[cfg] placement on unexpanded source; feature-closure builds and normalised-MIR digests in sa/features.py"},
+  {"name": "selftest", "path": "sa/selftest.py", "serves_properties": sorted(set(CHECKS) - {"C19"}), "kind_free_text": "thorough tier: stored mutants (seeded/, selftest/) are applied to a scratch copy of /repo, facts re-extracted, the rules must fire; benign refactors must stay silent"}],
  "checks": [], "notes": "Fix commits in /repo (genuine defects): see known_findings.json 'fixed'. No hook commits.",
  "not_applicable": []}
 for p in props:
